@@ -498,6 +498,11 @@ class Response:
         if self._cookies is None:
             self._cookies = http_cookies.SimpleCookie()
 
+        # NOTE: SimpleCookie re-uses an existing morsel together with its
+        #   attributes; start from scratch so that nothing from an earlier
+        #   set_cookie()/unset_cookie() for the same name lingers on.
+        self._cookies.pop(name, None)
+
         try:
             self._cookies[name] = value
         except http_cookies.CookieError as e:  # pragma: no cover
